@@ -33,6 +33,9 @@ NAMES = ['A', 'B', 'C', 'D', 'E', 'F', 'G', 'H', 'I']
 # hand-made graphs that run first: hairpins on chain ends traversed forwards and in reverse, a cycle with a closing link,
 # two chains sharing a junction, members with several dependants
 CORPUS = [
+    # members with and without sequence in one chain (F78): the merged segment has no sequence
+    ['S\tA\t*\tLN:i:4', 'S\tB\tGGTT', 'L\tA\t+\tB\t+\t1M'],
+    ['S\tA\tAACC', 'S\tB\t*\tLN:i:5', 'S\tC\tACGTA', 'L\tA\t+\tB\t+\t1M', 'L\tC\t-\tB\t-\t2M'],
     ['S\tA\tAACC', 'S\tB\tGGTT', 'L\tB\t+\tA\t-\t2M', 'L\tA\t-\tA\t+\t*'],
     ['S\tA\tAACC', 'S\tB\tGGTT', 'L\tA\t+\tB\t+\t2M', 'L\tB\t+\tB\t-\t1M'],
     ['S\tA\t*\tLN:i:4', 'S\tB\t*\tLN:i:5', 'S\tC\t*\tLN:i:6', 'L\tA\t-\tB\t+\t*', 'L\tC\t-\tB\t-\t2M', 'L\tA\t+\tA\t-\t3M', 'L\tC\t+\tC\t-\t*'],
@@ -49,12 +52,13 @@ def gen_case(rng, i):
                 'notes': {'chains': 1, 'cycle': False, 'hairpin': True, 'badcigar': False}}
     nseg = rng.randint(3, 9)
     names = rng.sample(NAMES, nseg)
-    withseq = rng.random() < 0.75
+    mode = rng.choice(['seq', 'seq', 'seq', 'none', 'mixed'])      # mixed: members with and without sequence in one graph
     lines = []
     length = {}
     for n in names:
         ln = rng.randint(6, 12)
         length[n] = ln
+        withseq = mode == 'seq' or (mode == 'mixed' and rng.random() < 0.6)
         if withseq:
             s = ''.join(rng.choice('ACGT') for _ in range(ln))
             lines.append('S\t%s\t%s%s' % (n, s, rng.choice(['', '\tLN:i:%d' % ln])))
@@ -245,7 +249,7 @@ def judge(case):
                 out.append(('the sequence of merged segment %s is not the spelled sequence of the chain' % nm, sp[0], f[2]))
             elif sp[0] != '*' and ln and ln[0] != len(sp[0]):
                 out.append(('the LN of merged segment %s disagrees with its sequence' % nm, len(sp[0]), ln[0]))
-            elif sp[0] == '*' and sp[1] is not None and ln != [sp[1]]:
+            elif sp[0] == '*' and sp[1] is not None and ln and ln != [sp[1]]:      # a length, if claimed, is the summed one
                 out.append(('the LN of merged segment %s is not the summed length minus the overlaps' % nm, sp[1], ln))
     if out:
         return out, info
